@@ -21,10 +21,8 @@ Definition spec_test (path : list nat) (s : suiteinfo) (t : test) : list event :
   else
     let m := own_msgs s t in
     ETestDone (tid t) (own s t) (clean (own s t)) ::
-    (match own_death s t with
-     | Some d => [EIncomplete cr (sig_text (Some d))]
-     | None => if has_skip m then [ESkipShown cr] else []
-     end) ++ [EChild (tid t) m; EStartTest (tid t)].
+    (if abnormal m (own_death s t) then [EIncomplete cr (sig_text (own_death s t))]
+     else if has_skip m then [ESkipShown cr] else []) ++ [EChild (tid t) m; EStartTest (tid t)].
 
 (* what the direct tests of a suite contribute *)
 Fixpoint direct_sum (s : suiteinfo) (l : list node) : cnt :=
